@@ -757,6 +757,12 @@ fn build_scheme(fields: &[MField]) -> Result<Scheme, String> {
         let ty = build_type(&f.ty);
         let r = if f.optional { b.add_optional_field(&f.name, ty) } else { b.add_field(&f.name, ty) };
         r.map_err(|e| format!("builder refused unique name {:?}: {e}", f.name))?;
+        // a quarter of the names are offered a second time (another type / optionality);
+        // whatever the builder answers, the scheme's JSON form is that of `fields`
+        if fingerprint(&f.name) % 4 == 0 {
+            let other = build_type(&MT { prim: (f.ty.prim + 1) % 4, layers: vec![] });
+            let _ = if f.optional { b.add_field(&f.name, other) } else { b.add_optional_field(&f.name, other) };
+        }
     }
     Ok(b.build())
 }
@@ -1035,6 +1041,68 @@ fn probe_case(ch: &mut Choices<'_>, st: &mut Stats) -> CaseResult {
     Ok(())
 }
 
+/// Readers are stateless: what a thread failed to read before must not change
+/// how a representable type is read afterwards.  A few unreadable descriptors
+/// (fault under 0..33 layers), then a deep representable one on the same thread.
+fn history_case(ch: &mut Choices<'_>, st: &mut Stats) -> CaseResult {
+    let k = ch.range(1, 6);
+    let mut log: Vec<Value> = Vec::new();
+    for _ in 0..k {
+        let n = ch.draw(34);
+        let layers: Vec<bool> = (0..n).map(|_| ch.boolean()).collect();
+        let kind = ch.draw(8);
+        let fault = ["\"Bytez\"", "5", "{\"Arr\":\"Int\"}", "null", "[\"Int\"]", "{\"Array\":\"Int\",\"Map\":\"Int\"}", "\"Int\"", "\"Int\""][kind];
+        let mut doc = String::new();
+        for l in &layers {
+            doc.push_str(if *l { "{\"Map\":" } else { "{\"Array\":" });
+        }
+        doc.push_str(fault);
+        doc.push_str(&"}".repeat(n));
+        if kind == 6 {
+            // truncated
+            let cut = ch.draw(doc.len());
+            doc.truncate(cut);
+        } else if kind == 7 {
+            // too deep: 33..40 layers
+            let extra = 33 + ch.draw(8) - n.min(33);
+            doc = format!("{}{}{}", "{\"Array\":".repeat(extra), doc, "}".repeat(extra));
+        }
+        let ep = ch.draw(5);
+        let outcome = match ep {
+            0 => catch(|| serde_json::from_str::<Type>(&doc).is_ok()),
+            1 => catch(|| serde_json::from_str::<CompoundType>(&doc).is_ok()),
+            2 => catch(|| serde_json::from_reader::<_, Type>(doc.as_bytes()).is_ok()),
+            3 => catch(|| serde_json::from_slice::<CompoundType>(doc.as_bytes()).is_ok()),
+            _ => {
+                let sdoc = format!("{{\"f\":{{\"type\":{doc},\"optional\":false}}}}");
+                catch(|| serde_json::from_str::<Scheme>(&sdoc).is_ok())
+            }
+        };
+        // not judged here (the deep / duplicate sub-checks judge unreadable documents)
+        log.push(json!({"document": doc, "entry_point": ep, "outcome": format!("{outcome:?}")}));
+        if outcome == Ok(false) {
+            st.class(&format!("history:unreadable-descriptor-kind-{kind}"));
+        }
+    }
+    let n = 32 - ch.draw(14);
+    let pattern = ch.draw(5);
+    let prim = ch.draw(4);
+    let layers = pattern_layers(ch, n, pattern);
+    let mt = MT { prim, layers };
+    let with_history = |mut f: Fail| {
+        f.case = json!({"type": f.case, "read_earlier_on_this_thread": log});
+        f
+    };
+    type_checks(&mt, st).map_err(with_history)?;
+    let fields = vec![MField { name: "deep.field".into(), ty: mt.clone(), optional: ch.boolean() }];
+    let doc = canonical_doc(&fields);
+    scheme_doc_checks(&fields, &doc, false, st).map_err(with_history)?;
+    st.class("history:deep-type-read-after-failures");
+    st.nontrivial(&(&mt, log.len()));
+    st.sample("history", || json!({"then_type": show_mt(&mt), "read_earlier_on_this_thread": log}));
+    Ok(())
+}
+
 fn is_open(sig: &str) -> bool {
     load_known_findings().iter().any(|k| k.property == "C15" && k.sig == sig)
 }
@@ -1051,6 +1119,7 @@ pub fn subs() -> Vec<Sub> {
         Sub { name: "deep-random", f: Box::new(move |ch, st| deep_case_with(open3, ch, st)) },
         Sub { name: "schemes", f: Box::new(move |ch, st| scheme_case_with(open, ch, st)) },
         Sub { name: "scheme-duplicates", f: Box::new(dup_case) },
+        Sub { name: "history", f: Box::new(history_case) },
     ]
 }
 
@@ -1061,7 +1130,9 @@ pub fn run(run: &Run) {
          non-trivial type = >= 2 layers with both kinds present (distinct types counted). deep = descriptors with 33..=130 layers (all shapes x primitives, plus random strings) through every reader incl. as a scheme field type: error, or the same JSON back. \
          schemes: 0..=40 uniquely named fields (simple, dotted, long, non-ASCII, needing JSON escapes, arbitrary incl. empty), types of 0..=32 layers, documents spelled canonically / with whitespace / with re-spelled strings and swapped members, \
          read through from_str, from_slice, from_reader, from_value and compared (names, order, types, optionality, re-serialization) with the source; non-trivial scheme case = >= 1 field (every document goes through the three entry points other than from_str), distinct documents counted; \
-         duplicates: adjacent, distant, equal only after escape normalisation -> every text entry point must return an error",
+         duplicates: adjacent, distant, equal only after escape normalisation -> every text entry point must return an error; \
+         history: 1..6 unreadable descriptors (misspelt primitive, wrong shapes, truncated, too deep; fault under 0..33 layers; five entry points) read on a thread, then a 19..32-layer type goes through all type checks and a scheme document on the same thread; \
+         schemes are built by a builder that is also offered a quarter of the names a second time (the refused definition must not show in the JSON form)",
     );
     run.assume("the canonical JSON spelling (no whitespace, minimal escapes, lower-case \\u00xx for other control characters) is what serde_json prints");
     run.assume("serde_json::Value holds unique keys; the order in which it iterates its members is taken as the source order for from_value");
@@ -1078,5 +1149,6 @@ pub fn run(run: &Run) {
     run.random("deep-random", run.tier.pick(6_000, 300_000), 12, sub("deep-random"));
     run.random("schemes", run.tier.pick(30_000, 2_000_000), 2500, sub("schemes"));
     run.random("scheme-duplicates", run.tier.pick(15_000, 1_000_000), 2500, sub("scheme-duplicates"));
+    run.random("history", run.tier.pick(15_000, 600_000), 120, sub("history"));
     run.note("exhaustive_subchecks", json!(["types-exhaustive", "types-shapes", "deep-shapes"]));
 }
